@@ -189,6 +189,53 @@ fn judge_template(ctx: &Ctx, z: &zerv::version::zerv::Zerv, var: &str, text: &st
     }
 }
 
+/// (t2) over-specified calls: a preset together with explicit parameters. The function may refuse such a call; whatever it
+/// returns instead is still sanitiser output and has to satisfy the contract for the separator / keep_zeros / max_length in
+/// force (explicit parameter, else the preset's), and be a fixed point of the function called the same way.
+fn overspecified_layer(ctx: &Ctx, sigma: &[&str], max_len: usize) -> Stats {
+    use zerv::cli::utils::output_formatter::OutputFormatter;
+    use zerv::cli::utils::template::Template;
+    use zvharness::refmodel::ren::{RComp, RSchema, RVar, RVars};
+    let schema = RSchema { core: vec![RComp::Var(RVar::Major)], extra_core: vec![], build: vec![] };
+    let presets = ["semver_str", "semver", "dotted", "pep440_local_str", "pep440", "lower_dotted"];
+    // (extra argument text, separator in force, keep_zeros in force, max_length in force)
+    let mut extras: Vec<(String, Option<char>, Option<bool>, Option<usize>)> = vec![];
+    for m in [0usize, 1, 2, 3, 4, 5, 8] { extras.push((format!("max_length={m}"), None, None, Some(m))); }
+    extras.push(("separator=\"-\"".into(), Some('-'), None, None));
+    extras.push(("separator=\"-\", max_length=3".into(), Some('-'), None, Some(3)));
+    extras.push(("keep_zeros=true".into(), None, Some(true), None));
+    extras.push(("keep_zeros=false, max_length=4".into(), None, Some(false), Some(4)));
+    extras.push(("lowercase=true".into(), None, None, None));
+    extras.push(("lowercase=false, max_length=2".into(), None, None, Some(2)));
+    let render = |z: &zerv::version::zerv::Zerv, t: &str| catch(|| OutputFormatter::format_output(z, "semver", None, &Some(Template::new(t.to_string()))).map_err(|e| e.to_string()));
+    let judge_text = |x: &str, st: &mut Stats| {
+        let v = RVars { major: Some(1), bumped_branch: Some(x.to_string()), ..Default::default() };
+        let Ok(z) = bind::zerv(&schema, &v) else { return };
+        for p in presets { for (extra, sep, keep, max) in &extras {
+            st.inc("overspecified_calls");
+            st.inc("evaluations");
+            let call = format!("sanitize(value=bumped_branch, preset=\"{p}\", {extra})");
+            let key = format!("{x:?} [{call}]");
+            let case = json!({"kind": "template", "value_kind": "overspecified", "text": x, "call": call});
+            match render(&z, &format!("[{{{{ {call} }}}}]")) {
+                Err(pn) => ctx.violation(&format!("panic@{}", pn.file()), key, case, pn.message),
+                Ok(Err(_)) => st.inc("overspecified_refused"),
+                Ok(Ok(o)) => {
+                    st.inc("overspecified_answered");
+                    let Some(out) = o.strip_prefix('[').and_then(|o| o.strip_suffix(']')) else { ctx.violation("template_function_output_shape", key, case, o); continue };
+                    if let Some(inv) = san::invariants(out, sep.unwrap_or('.'), keep.unwrap_or(false), *max) { ctx.violation(inv, key, case, format!("sanitize(...) returned {out:?}")); continue; }
+                    // fixed point of the same call
+                    let v2 = RVars { major: Some(1), bumped_branch: Some(out.to_string()), ..Default::default() };
+                    if let Ok(z2) = bind::zerv(&schema, &v2) { if let Ok(Ok(o2)) = render(&z2, &format!("[{{{{ {call} }}}}]")) { if o2 != o { ctx.violation("I5_idempotence", key, case, format!("s(x)={o:?} s(s(x))={o2:?}")); } } }
+                }
+            }
+        }}
+    };
+    let mut st = for_each_string(sigma, max_len, |x, _n, st| judge_text(x, st));
+    for x in ["ab/cd", "x/00y", "007abc", "Feature/0042_x", "a.-.b", "0.00.000", "ab-", "-ab", "a--b.c", "release/1.2.3-rc.1"] { judge_text(x, &mut st); }
+    st
+}
+
 fn template_layer(ctx: &Ctx, sets: &[Setting], built: &[Sanitizer], sigma: &[&str], max_len: usize) -> Stats {
     use zvharness::refmodel::ren::{RComp, RSchema, RVar, RVars};
     let schema = RSchema { core: vec![RComp::Var(RVar::Major)], extra_core: vec![], build: vec![] };
@@ -226,6 +273,7 @@ fn main() {
         if case["kind"] == "template" {
             // the template layer is small: re-run it; the recorded class shows up again if the violation is still there
             let _ = template_layer(&ctx, &sets, &built, &["a", "Z", "0", "1", ".", "-", "_", "é", "٣"], 3);
+            let _ = overspecified_layer(&ctx, &["a", "Z", "0", "1", ".", "-", "_", "é", "٣"], 3);
             finish(&ctx, Coverage::default());
         }
         let x = case["input"].as_str().unwrap().to_string();
@@ -320,7 +368,8 @@ fn main() {
     };
     // (t) the template function sanitize(...) on text, number and boolean values
     let stpl = template_layer(&ctx, &sets, &built, &sigma9, if ctx.quick() { 3 } else { 4 });
-    let all = s9.clone().merge(s12.clone()).merge(stpl).merge(s_len);
+    let sover = overspecified_layer(&ctx, &sigma9, 3);
+    let all = s9.clone().merge(s12.clone()).merge(stpl).merge(sover).merge(s_len);
     let mut cov = Coverage::default();
     cov.states = all.get("strings");
     cov.transitions = all.get("strings").saturating_sub(2);
